@@ -27,6 +27,7 @@ import IgrisModel.C14.Lemmas
 import IgrisModel.C14.Ledger
 import IgrisModel.C14.MachX
 import IgrisModel.C14.Access
+import IgrisModel.C14.Width
 
 namespace Igris.C14
 open Igris.Proto
@@ -560,9 +561,6 @@ example : (match copyCtorX 2 ⟨[.obj (some 1), .obj (some 2)], 2⟩ 1 with
 The model keeps `size : Nat`.  The code keeps `std::size_t m_size`; a store
 into a `w`-bit unsigned counter keeps `n % 2^w`. -/
 
-/-- what a `w`-bit `m_size` holds after `m_size = n` -/
-def stored (w n : Nat) : Nat := n % 2 ^ w
-
 /-- A `w`-bit counter represents every size `0 … N` of a container of capacity
     `N` exactly iff `N < 2^w` (N + 1 values are needed): for `size_t` the model's
     `Nat` is faithful for every `N < 2^64`, a `uint8_t` counter is not for
@@ -582,6 +580,29 @@ theorem size_counter_width (w N : Nat) : (∀ n, n ≤ N → stored w n = n) ↔
 
 /-- at `N = 2^w` the full container reads `size() = 0` -/
 theorem size_counter_wraps (w : Nat) : stored w (2 ^ w) = 0 := Nat.mod_self _
+
+/-- `push_back` with a `w`-bit counter IS the `push_back` of the model whenever
+    the capacity fits the counter (`N < 2^w`) and the size is in range — for
+    `size_t` (w = 64) that is every capacity below 2^64 -/
+theorem narrow_counter_exact {w N : Nat} (hN : N < 2 ^ w) (v : SVec) (x : Nat) (hs : v.size ≤ N) :
+    pushBackW w N v x = pushBack N v x := by
+  unfold pushBackW pushBack
+  by_cases hf : v.size ≥ N
+  · simp [hf]
+  · have : stored w (v.size + 1) = v.size + 1 := Nat.mod_eq_of_lt (by omega)
+    simp [hf, this]
+
+/-- and it is NOT when `N = 2^w` (here w = 2, N = 4, the shape of the seeded
+    `uint8_t` counter for N = 256): the fourth push makes the full container read
+    size 0, its guard can never fire again, and the fifth push placement-constructs
+    over the live element in slot 0.  The model's `push_back` drops it. -/
+theorem narrow_counter_witness :
+    (match pushAllW 2 4 [1, 2, 3, 4] ⟨rawStore 4, 0⟩ with
+      | .ok v => decide (v.size = 0) && (match pushBackW 2 4 v 5 with | .error .ctorOverLive => true | _ => false)
+      | _ => false) = true ∧
+    (match rangeLoop 4 [1, 2, 3, 4, 5] ⟨rawStore 4, 0⟩ with
+      | .ok (v, _) => decide (v.size = 4)
+      | _ => false) = true := by decide
 
 /-! ## read accessors -/
 
